@@ -205,13 +205,13 @@ for _k, _v in ADDENDA10.items():
 # rules added with seed round 11 ("performance / concurrency / lifecycle work", "boundary, arithmetic and time slips")
 ADDENDA11 = {
     "C01": ("; sync.Pool / sync.Map classed as nondeterministic, counting loops over maps accepted", ""),
-    "C02": ("; the cached session expiration is restored with the state (C02.N6e); single-definition rule for the first retained index, fresh-server rule for the fold, first-entry rule for iterators, delegation of Persist followed", " Also decided: the base state is selected by the store's first index alone; the fold runs into a server made for this snapshot; no copy loop passes over the first entry."),
+    "C02": ("; the cached session expiration is restored with the state and refreshed from the configuration in force before Snapshot reads it (C02.N6e, N6f); single-definition rule for the first retained index, fresh-server rule for the fold, first-entry and buffer-not-kept rules for iterators, delegation of Persist followed", " Also decided: the base state is selected by the store's first index alone; the fold runs into a server made for this snapshot; no copy loop passes over the first entry."),
     "C03": ("; no-defaults rule for the restore, own-slices rule for the records", " Also decided: the restore reads no package-level default; every record is built from slices declared in the loop that builds it."),
     "C04": ("; write-before-leave rule for a received batch", " Also decided: no return lies between the receive of a batch and the loop that writes it."),
     "C06": ("; short-circuit facts, prefix and non-empty tests as length facts, scope extended to everything Apply reaches in the replicated packages", ""),
     "C07": ("; success-only-after-write rule for StoreLogProto; unchecked map look-up rule in applyProto", " Also decided: StoreLogProto returns nil only through the LevelDB write."),
     "C08": ("; write-lock rule for LevelDB deletes", " Also decided: every LevelDB delete of the output stream runs under messagesMu held for writing."),
-    "C09": ("; success-only-after-write rule for Set / SetUint64 / StoreLogs / StoreLogProto", " Also decided: the writers report success only after the LevelDB write."),
+    "C09": ("; success-only-after-write rule for Set / SetUint64 / StoreLogs / StoreLogProto; empty-batch rule for the writers; half-open forwarding and encoder summaries", " Also decided: the writers report success only after the LevelDB write, and the batch they write is created or reset in the same call."),
     "C15": ("; constant-type and clean-text rules for messages built between the output store and the client", " Also decided: the API builds no message with a copied type or with CR / LF in its text."),
     "C17": ("; one-critical-section rule for the restore of lastProcessed; 404 rule generalised to every caller of api.session", " Also decided: Unmarshal replaces lastProcessed under sessionsMu."),
     "C19": ("; own-slot rule for measurements; peer list of the status answer read from raft for each request", " Also decided: each peer's measurement is stored under its position in the list that sized the slice; the reported peers depend on no field of the API but the raft node."),
